@@ -120,16 +120,14 @@ func genBLengthStruct(w *codewriter, _ *golang.ReadWriteContext, varname string)
 }
 
 func genBLengthList(w *codewriter, rwctx *golang.ReadWriteContext, varname string, depth int) {
-	t := rwctx.Type
 	// list header
 	w.f("off += 5")
 
 	// if element is basic type like int32, we can speed up the calc by sizeof(int32) * len(l)
-	if t.ValueType != nil {
-		if sz := category2WireSize[t.ValueType.Category]; sz > 0 { // fast path for less code
-			w.f("off += len(%s) * %d", varnameVal(rwctx.IsPointer, varname), sz)
-			return
-		}
+	// use the type of the sub-context: a typedef'd list has no ValueType of its own
+	if sz := category2WireSize[rwctx.ValCtx.Type.Category]; sz > 0 { // fast path for less code
+		w.f("off += len(%s) * %d", varnameVal(rwctx.IsPointer, varname), sz)
+		return
 	}
 
 	// iteration tmp var
